@@ -21,6 +21,7 @@ type Case struct {
 	Fn    string    `json:"fn,omitempty"`
 	Args  []gen.Val `json:"args,omitempty"`
 	Lower bool      `json:"lower,omitempty"` // write and / or / not in lower case
+	Excl  []string  `json:"excl,omitempty"`  // open-finding shapes the generator steered this case away from (shape@ctx: context left out, shape~: rewritten)
 }
 
 var (
